@@ -6,8 +6,8 @@ Open Scope Z_scope.
 
 (* Round trip of the header value block (the layer directly below zlib; with inflate(deflate x) = x the
    same bytes reach the reader).  For every list of at most 1024 header entries (name, ToLower(name),
-   values) on which Go's ToLower keeps the byte length of the name (ent_ok; all ASCII names qualify) and
-   whose lengths fit the 32-bit fields, parseHeaderValueBlock applied to what writeHeaderValueBlock wrote,
+   values) -- ANY names, including non-ASCII ones whose lower-casing changes their byte length; ent_ok only
+   asks that ToLower is stable on its own output and that the lengths fit the 32-bit fields -- parseHeaderValueBlock applied to what writeHeaderValueBlock wrote,
    followed by any further bytes `rest`: never fails with an I/O error, consumes exactly the block
    (the remaining input is `rest`), and returns exactly the headers obtained by Header.Add of every
    NUL-separated value under the lower-cased name (spec_step), with error DuplicateHeaders (11) only
@@ -27,14 +27,12 @@ Example C39_block_roundtrip_example :
   PDone [([65;99;99;101;112;116], [[103;122]; [100]]); ([58;112;97;116;104], [[47]]); ([195;169], [[49]])] 31 0 [] 6.
 Proof. exact w_ok_lemma. Qed.
 
-(* The guard is necessary (known finding 1): writeHeaderValueBlock writes len(name) BEFORE lower-casing.
-   For the header name "İx" (3 bytes, ToLower = "ix", 2 bytes) the written block cannot be read back:
-   the reader runs into end of input (io.EOF). *)
-Theorem C39_roundtrip_refuted :
-  go_lower [196; 176; 120] = Some [105; 120] /\
-  exists s mx, parse_block rd_plain (write_block w_Ix) = PIo 1 s mx.
-Proof. exact roundtrip_refuted_lemma. Qed.
-Print Assumptions C39_roundtrip_refuted.
+(* The header name "İx" (3 bytes, ToLower = "ix", 2 bytes) could not be read back before the fix in /repo
+   (writeHeaderValueBlock wrote len(name) BEFORE lower-casing); it is now inside the theorem's domain. *)
+Example C39_roundtrip_Ix :
+  go_lower [196; 176; 120] = Some [105; 120] /\ forallb ent_ok w_Ix = true /\
+  parse_block rd_plain (write_block w_Ix) = PDone [([73; 120], [[118]])] 7 0 [] 4.
+Proof. exact Ix_roundtrip_lemma. Qed.
 
 (* Allocation is not bounded by the input (known finding 2): a 12-byte block makes
    parseHeaderValueBlock request a buffer of 2^26 bytes (make([]byte, length) with the 32-bit length field). *)
